@@ -41,8 +41,9 @@ func (failingChange) Apply(w ingest.MutableWorld) (b6.Collection[b6.FeatureID, b
 
 func runC13(rc *RC) {
 	g := newCityGen(rc)
-	kind := rc.Draw(wkCount)
+	kind := rc.Pick(3, 3, 3, 1, 1, 1) // wkCountAll kinds
 	rc.Knob("world-kind", kind)
+	g.noBaseCollections = kind == wkOverlayOverCompact
 	base := g.baseCity(true)
 	w, err := makeMutableWorld(rc, g, kind, base)
 	g.mixedAreas = true // only for features added from here on
